@@ -312,7 +312,7 @@ Definition ref_ol (is_module : bool) := fix ref_l (u : list tstmt) (r : env) {st
   end.
 
 Definition ref_omodule (body : list tstmt) (r : env) : rres :=
-  let a := ref_ol true body r in
+  let a := ref_ol true (trest body) r in
   {| r_exc := r_exc a; r_env := r_env a;
      r_log := (E_init_module, 0, Some VNone) :: r_log a ++ match r_exc a with None => [(E_exit_module, 0, Some VNone)] | Some _ => [] end |}.
 End Ov.
